@@ -22,6 +22,14 @@ def opsTm : List (String × Rd (List String)) := [
   ("tm.jones", do let l ← listOf 8 (bits 64); pure [b01 (finiteAll finite64 l)]),
   ("tm.est", do let v ← bits 64; let r ← bits 64; pure [b01 (finiteEst finite64 v r)]),
   ("tm.estf", do let v ← bits 32; let r ← bits 32; pure [b01 (finiteEst finite32 v r)]),
-  ("tm.estld", do let v ← bits 80; let r ← bits 80; pure [b01 (finiteEst finite80 v r)])
+  ("tm.estld", do let v ← bits 80; let r ← bits 80; pure [b01 (finiteEst finite80 v r)]),
+  -- the same predicates on literals written at the call site: the line carries the index of the literal (used by the
+  -- harness) and its bit pattern (used here)
+  ("tm.kd", do let _ ← nat; let x ← bits 64; pure [b01 (finite64 x), b01 (signbit64 x)]),
+  ("tm.kf", do let _ ← nat; let x ← bits 32; pure [b01 (finite32 x), b01 (signbit32 x)]),
+  ("tm.kld", do let _ ← nat; let x ← bits 80; pure [b01 (finite80 x), b01 (signbit80 x)]),
+  ("tm.kest", do let _ ← nat; let x ← bits 64; let o ← bits 64; pure [b01 (finiteEst finite64 x o), b01 (finiteEst finite64 o x)]),
+  ("tm.kestf", do let _ ← nat; let x ← bits 32; let o ← bits 32; pure [b01 (finiteEst finite32 x o), b01 (finiteEst finite32 o x)]),
+  ("tm.kcx", do let _ ← nat; let x ← bits 64; let o ← bits 64; pure [b01 (finiteAll finite64 [x, o]), b01 (finiteAll finite64 [o, x])])
 ]
 end Epsic.Driver
